@@ -2,6 +2,7 @@
 From Coq Require Import List String ZArith Bool.
 From GG Require Import Base.Strs Model.Codes Model.IgnoreSet Model.Config Model.GoAst Model.Annot Model.Annots Model.Analyze
                        Extracted Exec Proofs.IgnoreSetProofs Proofs.CodesProofs Proofs.WalkProofs Proofs.CheckerProofs Proofs.IgnoreProofs.
+From GG Require Proofs.OpsProofs Proofs.OneMoreProofs Proofs.DiagProofs.
 Import ListNotations.
 Local Open Scope string_scope.
 Local Open Scope Z_scope.
@@ -128,6 +129,44 @@ Example C07_nonvacuous :
   hit ["IMM"; "CTOR01"] 45 75 "CTOR02" 65 = false /\ hit ["ALL"] 45 75 "PKGO03" 75 = true.
 Proof. vm_compute. repeat split; reflexivity. Qed.
 
+(* (8) END TO END.  Take a package and put ONE MORE @ignore comment c' with code list C into one of its non-excluded files
+   (anywhere in that file's comment list; nothing else changes), with scope [s, e] as computed by (1)-(4').  Then the whole
+   per-package analysis returns the same annotations, and exactly the diagnostics of the original analysis re-decided under
+   "covered by the new marker (5), or suppressed as before": by (6) the IMM / CTOR / IMPL diagnostics in [s, e] that match C
+   disappear and every other one stays; by (7) a once-per-file report moves to the next unsuppressed use.  A package whose
+   analysis fails still fails.  Input condition (checked on every serialised package): positions >= 1. *)
+Theorem C07_whole_analysis_one_more_comment :
+  forall cfg p p' all A B f f' c' pre post C s e,
+    p_path p' = p_path p -> p_name p' = p_name p -> p_imports p' = p_imports p -> p_types p' = p_types p ->
+    kept_files cfg p = (A ++ f :: B)%list -> kept_files cfg p' = (A ++ f' :: B)%list ->
+    OneMoreProofs.one_more f f' c' pre post ->
+    is_ignore_comment kw_ignore (c_text c') = true -> x_parse_ignore (c_text c') = Some C -> scope f c' = Some (s, e) ->
+    OpsProofs.x_pos_ok cfg p = true -> 1 <= s ->
+    match x_analyze cfg p all with
+    | APanic m => x_analyze cfg p' all = APanic m
+    | AOk own ds =>
+        exists ops, x_ignore_ops cfg p = Some ops /\
+          ds = OneMoreProofs.diags_under cfg p all (x_suppressed ops) /\
+          x_analyze cfg p' all = AOk own (OneMoreProofs.diags_under cfg p all (fun c q => hit C s e c q || x_suppressed ops c q))
+    end.
+Proof.
+  intros cfg p p' all A B f f' c' pre post C s e H1 H2 H3 H4 Hk Hk' Hom Hi Hc Hs Hp Hs1.
+  pose proof (OneMoreProofs.analyze_one_more_ignore cfg p p' all A B f f' c' pre post C s e H1 H2 H3 H4 Hk Hk' Hom Hi Hc Hs Hp Hs1) as T.
+  pose proof (OneMoreProofs.analyze_is_diags_under cfg p all) as U.
+  destruct (x_analyze cfg p all) as [own ds|m]; [|exact T].
+  destruct T as (ops & Ho & T). exists ops. split; [exact Ho|]. split; [|exact T].
+  rewrite Ho in U. injection U as _ U. exact U.
+Qed.
+
+(* (8') ... spelled out for the report-time checkers over the WHOLE result: a diagnostic with an IMPL / IMM / CTOR code is in the
+   new result iff it was in the old one and is not covered by the new marker - every other diagnostic unchanged *)
+Theorem C07_whole_analysis_report_time_effect :
+  forall cfg p all sup C s e d,
+    In (d_code d) (DiagProofs.IMPL_CODES ++ DiagProofs.IMM_CODES ++ DiagProofs.CTOR_CODES)%list ->
+    (In d (OneMoreProofs.diags_under cfg p all (fun c q => hit C s e c q || sup c q)) <->
+     In d (OneMoreProofs.diags_under cfg p all sup) /\ hit C s e (d_code d) (d_pos d) = false).
+Proof. intros cfg p all sup C s e d H. exact (OneMoreProofs.report_time_effect cfg p all sup (hit C s e) d H). Qed.
+
 Print Assumptions C07_scope_file_level.
 Print Assumptions C07_scope_end_not_inline.
 Print Assumptions C07_next_node_is_first_after.
@@ -141,3 +180,5 @@ Print Assumptions C07_one_more_comment.
 Print Assumptions C07_codes_are_upper_cased.
 Print Assumptions C07_effect_report_time.
 Print Assumptions C07_effect_detection_time.
+Print Assumptions C07_whole_analysis_one_more_comment.
+Print Assumptions C07_whole_analysis_report_time_effect.
